@@ -228,33 +228,38 @@ pub fn put_val(r: &mut ResponseUnit, v: &Val) {
     };
 }
 
-/// Format one value alone with a growable formatter (the reference text of that datum)
-pub fn val_text(v: &Val) -> core::result::Result<Vec<u8>, Error> {
+/// Format one value into a given formatter (whatever it already holds)
+pub fn val_fmt(v: &Val, out: &mut dyn scpi::parser::response::Formatter) -> core::result::Result<(), Error> {
     use scpi::parser::format::{Binary, Hex, Octal};
     use scpi::parser::response::ResponseData;
-    let mut out: Vec<u8> = Vec::new();
     match v {
-        Val::U8(x) => x.format_response_data(&mut out),
-        Val::I16(x) => x.format_response_data(&mut out),
-        Val::U32(x) => x.format_response_data(&mut out),
-        Val::I64(x) => x.format_response_data(&mut out),
-        Val::Usize(x) => x.format_response_data(&mut out),
-        Val::F32(x) => x.format_response_data(&mut out),
-        Val::F64(x) => x.format_response_data(&mut out),
-        Val::Bool(x) => x.format_response_data(&mut out),
-        Val::Str(x) => x.format_response_data(&mut out),
-        Val::Arb(x) => Arbitrary(x).format_response_data(&mut out),
-        Val::Utf8(x) => x.format_response_data(&mut out),
-        Val::Chr(x) => Character(x).format_response_data(&mut out),
-        Val::Expr(x) => Expression(x).format_response_data(&mut out),
-        Val::Hex(x) => Hex(*x).format_response_data(&mut out),
-        Val::Bin(x) => Binary(*x).format_response_data(&mut out),
-        Val::Oct(x) => Octal(*x).format_response_data(&mut out),
-        Val::ListI32(x) => x.format_response_data(&mut out),
-        Val::ArrList(x) => x.format_response_data(&mut out),
-        Val::Enum(x) => x.format_response_data(&mut out),
-        Val::Err(x) => x.format_response_data(&mut out),
-    }?;
+        Val::U8(x) => x.format_response_data(out),
+        Val::I16(x) => x.format_response_data(out),
+        Val::U32(x) => x.format_response_data(out),
+        Val::I64(x) => x.format_response_data(out),
+        Val::Usize(x) => x.format_response_data(out),
+        Val::F32(x) => x.format_response_data(out),
+        Val::F64(x) => x.format_response_data(out),
+        Val::Bool(x) => x.format_response_data(out),
+        Val::Str(x) => x.format_response_data(out),
+        Val::Arb(x) => Arbitrary(x).format_response_data(out),
+        Val::Utf8(x) => x.format_response_data(out),
+        Val::Chr(x) => Character(x).format_response_data(out),
+        Val::Expr(x) => Expression(x).format_response_data(out),
+        Val::Hex(x) => Hex(*x).format_response_data(out),
+        Val::Bin(x) => Binary(*x).format_response_data(out),
+        Val::Oct(x) => Octal(*x).format_response_data(out),
+        Val::ListI32(x) => x.format_response_data(out),
+        Val::ArrList(x) => x.format_response_data(out),
+        Val::Enum(x) => x.format_response_data(out),
+        Val::Err(x) => x.format_response_data(out),
+    }
+}
+
+/// Format one value alone with a growable formatter (the reference text of that datum)
+pub fn val_text(v: &Val) -> core::result::Result<Vec<u8>, Error> {
+    let mut out: Vec<u8> = Vec::new();
+    val_fmt(v, &mut out)?;
     Ok(out)
 }
 
@@ -279,6 +284,10 @@ pub struct Script {
     /// refuse one of the forms with -113 like the library's default stubs do
     pub no_query: bool,
     pub no_event: bool,
+    /// what `Command::meta()` answers (0 Unknown, 1 NoQuery, 2 QueryOnly, 3 Both): documented as a hint for help /
+    /// autocompletion that is "not actually binding in any way", so it may say anything about a command that
+    /// implements both forms
+    pub meta_hint: u8,
 }
 
 impl Script {
@@ -357,6 +366,14 @@ pub struct Stub;
 impl Command<Dev> for Stub {}
 
 impl Command<Dev> for Script {
+    fn meta(&self) -> CommandTypeMeta {
+        match self.meta_hint {
+            1 => CommandTypeMeta::NoQuery,
+            2 => CommandTypeMeta::QueryOnly,
+            3 => CommandTypeMeta::Both,
+            _ => CommandTypeMeta::Unknown,
+        }
+    }
     fn event(&self, dev: &mut Dev, c: &mut Context, mut params: Parameters) -> Result<()> {
         if self.no_event {
             // form not defined by this command: the library's own default stub answers (no handler code runs,
